@@ -67,7 +67,8 @@ Call(p, s) ==
         /\ kvar' = IF reuse THEN k0 ELSE t
         /\ own' = TRUE
   /\ op' = [name |-> "Call", p |-> p, s |-> s, compare |-> ~dirty,
-            cfg |-> cfg, pos |-> pos', seed |-> seed']
+            cfg |-> cfg, pos |-> pos', seed |-> seed',
+            reuse |-> ((p = Keep \/ p = pos) /\ rawk # NoTag /\ kvar # NoTag /\ (ReuseNeedsOwnResult => own))]
 
 (* cond_srf.set_pos(p) *)
 SetPos(p) ==
